@@ -57,6 +57,29 @@ def scenarios():
                 ops.append({"op": "alloc_ranges", "key": "sts_ns1_web_web-0", "subnet": "10.2.0.0/24", "ranges": [["10.101.0.3"]], "attr": A0})
             ops += [{"op": "release", "key": PK, "ip": "10.101.0.3"}, {"op": "restart"}, {"op": "watch_deliver", "ip": "@pending"}]
             S.append(("pool-reservation-handed-to-a-pod-then-deleted:%d:%s" % (upd, "+".join(tail) or "undelivered"), ops))
+    # a key that holds SEVERAL IPs inside one requested range list (its template asked for [a], then [b], now [a, b] or [b, a]):
+    # the answer for that list is the first held address in the WALK order of the list - the same one every time it is asked
+    KW = "sts_ns1_web_web-7"
+    for lists in ([["10.101.0.4", "10.101.0.2"]], [["10.101.0.2", "10.101.0.4"]], [["10.101.0.2~10.101.0.5"]],
+                  [["10.101.0.9~10.101.0.10", "10.101.0.2~10.101.0.4"]], [["10.101.0.10"], ["10.101.0.4", "10.101.0.2~10.101.0.3"]]):
+        S.append(("one-range-list-holds-several-ips-of-the-key:%d" % len(S), [
+            conf_op([P2]),
+            {"op": "alloc_ranges", "key": KW, "subnet": "10.1.0.0/24", "ranges": [["10.101.0.2"], ["10.101.0.4"], ["10.101.0.10"]], "attr": A0}] +
+            [{"op": "by_key_ranges", "key": KW, "ranges": lists}] * 8 +
+            [{"op": "alloc_ranges", "key": KW, "subnet": "10.1.0.0/24", "ranges": lists, "attr": A0}, {"op": "by_key_ranges", "key": KW, "ranges": lists}]))
+    # a reservation that carries only the label (no key at all) survives reloads and restarts like any other; its IP is never
+    # handed out
+    for deliver in (True, False):
+        for again in ("configure", "restart"):
+            ops = [conf_op([P1]), {"op": "admin_reserve", "ip": "10.100.0.2", "key": "", "policy": 2}]
+            if deliver:
+                ops.append({"op": "watch_deliver", "ip": "@pending"})
+            ops += [conf_op([P1, P2]) if again == "configure" else {"op": "restart"},
+                    {"op": "alloc_in_subnet", "key": "sts_ns1_web_web-0", "subnet": "10.1.0.0/24", "attr": A0},
+                    {"op": "alloc_ranges", "key": "sts_ns1_web_web-1", "subnet": "10.1.0.0/24", "ranges": [["10.100.0.2"]], "attr": A0},
+                    {"op": "watch_deliver", "ip": "@pending"}, conf_op([P1]),
+                    {"op": "alloc_specific", "key": "sts_ns1_web_web-2", "ip": "10.100.0.2", "attr": A0}]
+            S.append(("label-only-reservation-%s-%s" % ("seen" if deliver else "unseen", again), ops))
     # reservation not yet seen: Create conflicts, also in the middle of a multi-IP request (rollback)
     S.append(("unseen-reservation-conflict", [
         conf_op([P2]), {"op": "admin_reserve", "ip": "10.101.0.3", "key": "pool__reserved_", "policy": 2},
@@ -175,6 +198,25 @@ def monitors(steps, focus):
             now = {e[0]: e for e in d["store"]}
             ok = all(e[0] in now and now[e[0]] == e for e in resv)
             out.append(("true" if ok else "false", i, "reservations_survive_requests" if focus == "C09" else "requests_keep_store_objects"))
+        if focus == "C08" and k == "by_key_ranges" and ex.get("ranges") and o.get("res") == "ok" and o.get("slots") is not None:
+            # which of its IPs a key holds "in the i-th range list": the first one in the walk order of that list (ranges in the
+            # order given, addresses ascending) - what Filter and Bind both rely on, whatever the table's iteration order
+            held = {e[0] for e in d["alloc"] if e[1] == ex["key"]}
+            want = []
+            for rl in ex["ranges"]:
+                w_ = None
+                for r_ in rl:
+                    lo, hi = (r_.split("~") + [r_])[:2]
+                    lo, hi = ipamgen.s2ip(lo), ipamgen.s2ip(hi)
+                    if hi - lo > 4096:
+                        w_ = "skip"
+                        break
+                    w_ = next((x for x in range(lo, hi + 1) if x in held), None)
+                    if w_ is not None:
+                        break
+                want.append(w_)
+            if "skip" not in want:
+                out.append(("true" if list(o["slots"]) == want else "false", i, "held_ip_of_a_range_list_is_the_first_in_walk_order"))
         nested = o.get("nested")
         if nested and focus == "C09" and nested.get("res") == "ok" and conf is not None:
             # an allocation that was acknowledged while a reload was in progress must survive the reload
